@@ -43,6 +43,31 @@ Theorem C13_word_mismatch_rejected : forall b fx cx nwy cy r o, nw fx <> nwy -> 
 Proof. exact mismatch_rejected. Qed.
 Print Assumptions C13_word_mismatch_rejected.
 
+(* arrays of codes on either or both sides (fix b8389df): equal shapes are paired position by position, a scalar object is paired
+   with every element; every pair gives the code of x's format whose pattern is the AND / OR / XOR of the two patterns; ~ acts
+   on every element.  Any word length, any array length. *)
+Theorem C13_arrays_and_or_xor : forall b fx cxs cys ps r o, 1 <= nw fx -> pair_codes cxs cys = Some ps ->
+  exists w, fxp_bitwise_arr b fx cxs false 0 cys r o = Ok w /\
+    w_codes w = map (fun p => code_of_pattern fx (z_bop b (uimage (nw fx) (fst p)) (uimage (nw fx) (snd p)))) ps /\
+    w_ovf w = false /\ w_unf w = false.
+Proof. exact fxp_bitwise_arr_spec. Qed.
+Print Assumptions C13_arrays_and_or_xor.
+Theorem C13_arrays_not : forall fx cxs r o, 1 <= nw fx -> Forall (in_range fx) cxs ->
+  exists w, fxp_invert_arr fx cxs r o = Ok w /\
+    w_codes w = map (fun c => code_of_pattern fx (2^(nw fx) - 1 - uimage (nw fx) c)) cxs /\ w_ovf w = false /\ w_unf w = false.
+Proof. exact fxp_invert_arr_spec. Qed.
+Print Assumptions C13_arrays_not.
+Theorem C13_arrays_pairing :
+  (forall xs ys, length xs = length ys -> pair_codes xs ys = Some (combine xs ys)) /\
+  (forall x ys, pair_codes [x] ys = Some (map (fun y => (x, y)) ys)).
+Proof. split; [exact pair_codes_same | exact pair_codes_scalar_left]. Qed.
+Print Assumptions C13_arrays_pairing.
+
+Example C13_arrays_nonvacuous :
+  exists w, fxp_bitwise_arr BAnd {| sg := true; nw := 8; nf := 4 |} [1; -2; 3; -128] true 8 [15; -16; -86; -1] Trunc Saturate = Ok w /\
+            w_codes w = [1; -16; 2; -128].
+Proof. eexists. vm_compute. split; reflexivity. Qed.
+
 Example C13_nonvacuous :
   let f := {| sg := true; nw := 100; nf := 3 |} in
   in_range f (- 2^99) /\ bitwise_raw BXor f (- 2^99) (2^99 - 1) = -1 /\ invert_raw f (- 2^99) = 2^99 - 1 /\
